@@ -61,10 +61,20 @@ pub fn meta(prop: &str) -> PropMeta {
         "memory model layer generates only C11-consistent executions without load buffering (reads never see later stores)",
         "bounds: see per_scenario (threads, operations per thread, deviation bound)",
     ];
-    let rule = match prop {
-        "C06" | "C07" | "C08" => "every choice vector (thread switches, nested signal arrivals, stale reads allowed by the declared orderings, spurious weak-CAS failures) within the deviation bound, each executed on the real Channel; non-trivial = executions in which a preemption, nested arrival or stale read actually occurred; distinct = distinct observation digests (receive sequences, discards) among those",
-        _ => "every choice vector within the deviation bound executed on the real code; non-trivial = a preemption / nested arrival / stale read occurred; distinct by observation digest",
+    let tail = "; every choice vector (thread switch at a scheduling point, kernel-delivered signal arriving on any unfinished thread - running, preempted or blocked - at an operation boundary, stale read allowed by the declared orderings, spurious weak-CAS failure) whose deviations fit the scenario's bound is executed on the real code from a reset process-global state; non-trivial = a preemption, nested arrival or stale read actually occurred; distinct = distinct observation digests among those";
+    let head = match prop {
+        "C01" => "half-lock probes (writers/readers/nested read) and registry removal by id, by signal and by dropping the owner, against delivery threads and arrivals nested in the remover; oracles: snapshot event monitor, vector-clock races open/close vs free, exactly-once release before the removal returns by the remover outside handlers, no invocation in progress/afterwards",
+        "C02" => "registry mutation chains vs deliveries; oracle per delivery: action list equals one registry state current during it (must-run / must-not-run from call/return indices, registration order)",
+        "C03" => "all built-in actions installed, deliveries on another thread and nested at every boundary of registry/iterator/channel mutators, self-pipes empty and completely full; oracles: no lock/yield/blocking read/heap traffic in handler frames, step bound of un-preempted deliveries, watchdog for blocking or crashing handlers",
+        "C04" => "first registration(s) vs deliveries for four previous dispositions; oracle per delivery: previous handler exactly once, first, right convention, kernel info/context",
+        "C06" | "C07" | "C08" => "Channel<Tracked> harnesses (producers, consumers, nested sends, fresh/rotated/full start states); oracles: call/return history (nothing invented/duplicated/reordered/lost early/empty too early), vector-clock races on cell accesses (shimmed UnsafeCell), exactly-once drops, own-step bound 4 + failed CAS, no panic",
+        "C09" => "real Signals / SignalsInfo<WithRawSiginfo> / SignalDelivery / poll_signal consumers over a socket pair vs delivery threads, add_signal and arrivals nested in the consumer; oracle: lost wake-up at quiescence, every delivery followed by a (payload-exact) yield",
+        "C10" => "same executions as C09; oracles: yields <= deliveries begun since added, only watched numbers, payload-exact faithful records, at most one per delivery, delivery order",
+        "C11" => "close() from 1-2 handle clones at every instant vs wait/forever/pending/poll consumers that keep calling after close; oracles: sticky flag, termination, forever ends, Pending only after the callback answered not-ready",
+        "C18" => "half-lock writers vs re-entering readers, registry mutators incl. a panicking one, relay scenarios (sections/deliveries overlapping so that one is always in flight until the mutator is done); oracle: Musuvathi-Qadeer fair scheduling - any deadlock, any all-yielding state without progress, or the step horizon is a violation",
+        _ => "scenario set of the property",
     };
+    let rule: &'static str = Box::leak(format!("{}{}", head, tail).into_boxed_str());
     PropMeta { rule, assumptions: common }
 }
 
@@ -73,7 +83,7 @@ pub fn owns(prop: &str, class: &str) -> bool {
     let own: &[&str] = match prop {
         "C06" => &["C06", "race"],
         "C07" => &["C07", "race"],
-        "C08" => &["C08", "livelock", "deadlock", "crash", "hung", "panic"],
+        "C08" => &["C08", "C03", "livelock", "deadlock", "crash", "hung", "panic"],
         "C01" => &["C01", "race"],
         "C02" => &["C02"],
         "C03" => &["C03", "alloc", "crash", "hung"],
